@@ -455,7 +455,14 @@ impl World for Acc {
         format!("multisig-smart-account{}", if self.thorough { "-t" } else { "" })
     }
 
-    fn fresh(&self, _s: usize) -> (Inst, u32) {
+    fn seeds(&self) -> usize {
+        2
+    }
+    fn seed_name(&self, s: usize) -> String {
+        ["one-default-rule", "three-default+three-call-rules"][s].into()
+    }
+
+    fn fresh(&self, seed: usize) -> (Inst, u32) {
         let e = envx::mk_env(100);
         let verifier = e.register(wrap::MockVerifier, ());
         let pol = [e.register(wrap::MockPolicy, ()), e.register(wrap::MockPolicy, ())];
@@ -473,6 +480,19 @@ impl World for Acc {
         sv.push_back(i.signer(S1));
         let pm: Map<Address, Val> = Map::new(&i.e);
         i.acc = i.e.register(account_example::MultisigContract, (sv, pm));
+        if seed == 1 {
+            // several rules of one type with different requirements, so that removals, expiry and
+            // precedence among >= 3 same-type rules are reached within the depth bound
+            for op in [
+                Op::AddRule { t: CType::Default, signers: vec![S1, S2], policies: vec![], valid: Valid::None },
+                Op::AddRule { t: CType::Default, signers: vec![S1], policies: vec![0], valid: Valid::None },
+                Op::AddRule { t: CType::CallT1, signers: vec![D], policies: vec![], valid: Valid::None },
+                Op::AddRule { t: CType::CallT1, signers: vec![S1], policies: vec![1], valid: Valid::Next },
+                Op::AddRule { t: CType::CallT1, signers: vec![S1, D], policies: vec![0], valid: Valid::None },
+            ] {
+                assert!(self.exec(&i, &op), "seed op {op:?} refused");
+            }
+        }
         (i, 0)
     }
 
